@@ -69,14 +69,17 @@ def check_case(ctx, case):
     else:
         if pos != N:
             ctx.fail("generated source features cover [0,{}) of a product of length {}".format(pos, N), case)
-    # GenBank round trip
+    # GenBank round trip (the LOCUS line holds the name: attempted for names of at most 16 characters)
     h = io.StringIO()
-    try:
-        SeqIO.write(prod, h, "genbank")
-        back = SeqIO.read(io.StringIO(h.getvalue()), "genbank")
-    except Exception as e:  # noqa
-        ctx.fail("the product cannot be written to / read from GenBank: {}: {}".format(type(e).__name__, str(e)[:80]), case)
-        back = None
+    back = None
+    if len(pname) <= 16:
+        try:
+            SeqIO.write(prod, h, "genbank")
+            back = SeqIO.read(io.StringIO(h.getvalue()), "genbank")
+        except Exception as e:  # noqa
+            ctx.fail("the product cannot be written to / read from GenBank: {}: {}".format(type(e).__name__, str(e)[:80]), case)
+    else:
+        ctx.note("long-name-no-roundtrip")
     if back is not None:
         if str(back.seq).upper() != seq.upper():
             ctx.fail("GenBank round trip changes the sequence", case)
@@ -250,5 +253,7 @@ def run(ctx):
                     case["mods"].append(asm.ent_json(60, "generic:M:" + str(enz), wd))
                     break
         case["id"] = "".join(rng.choice(alphabet) for _ in range(rng.randint(1, 16)))
-        case["name"] = "".join(rng.choice(alphabet) for _ in range(rng.randint(1, 16)))
+        # the name is free text (a construct is often named after its parts); only the id has to be GenBank-legal
+        case["name"] = "".join(rng.choice(alphabet) for _ in range(rng.choice([1, 8, 16, 17, 24, 40])
+                                                                      if rng.random() < 0.4 else rng.randint(1, 16)))
         ctx.guard(check_case, case)
